@@ -16,7 +16,7 @@ LEVEL = 'exploration'
 TECHNIQUE = ('metamorphic over file formats: Hypothesis-generated data expressible in JSON, JSON5, YAML and plist is '
              'serialised with independent libraries, loaded by graphtage and compared across all 16 ordered format pairs')
 RULE = ("Cases: a document x (string keys, lists, mappings, booleans, 64-bit ints, finite floats, strings without "
-        "XML-illegal control characters, no null) and a second document c (independent, mutated, or x with one scalar re-typed to an equal-looking value: true <-> 1, 1 <-> '1'), x build options. Strings include spellings that look like numbers or special scalars in some syntax ('1e5', '0x1F', 'on', '2001-01-01'). x and c are written with "
+        "XML-illegal control characters, no null) and a second document c (independent, mutated, or x with one scalar re-typed to an equal-looking value: true <-> 1, 1 <-> '1'), x build options; in a quarter of the cases one container is referenced from two places, so that the YAML file contains an anchor and an alias. Strings include spellings that look like numbers or special scalars in some syntax ('1e5', '0x1F', 'on', '2001-01-01'). x and c are written with "
         "json.dumps (as .json and .json5), yaml.safe_dump and plistlib.dumps; a file is kept only if the independent "
         "parser of its format (json.loads, json5.loads, yaml.safe_load, plistlib.loads) reads back exactly the document "
         "(otherwise the case is discarded and counted). Oracle for every ordered pair of formats (f, g): canonical "
@@ -32,7 +32,7 @@ MANIFEST_TEXT = ("Cross-format metamorphic check over all ordered pairs of the f
                  "Exploration over bounded documents; the known plist-wrapper finding F13 is excluded by key and reported.")
 MANIFEST_NOTE = "Trusts json, json5, PyYAML's SafeLoader and plistlib as independent readers of the files written."
 DESIGN_REF = 'DESIGN.md section 3, C09'
-SHRINK = {'docs': ['x', 'c'], 'enums': {'ds': 'auto', 'le': 'on'}}
+SHRINK = {'docs': ['x', 'c'], 'enums': {'ds': 'auto', 'le': 'on', 'share': False}}
 
 FMTS = ['json', 'json5', 'yaml', 'plist']
 
@@ -76,7 +76,7 @@ def cases(draw, max_leaves):
     x = draw(D)
     c = draw(st.one_of(D, gen.mutate(x, D, scal), retyped(x), retyped(x)))
     ds, le = draw(gen.options)
-    return {'x': x, 'c': c, 'ds': ds, 'le': le}
+    return {'x': x, 'c': c, 'ds': ds, 'le': le, 'share': draw(st.integers(0, 3)) == 0}
 
 
 def jobs(tier):
@@ -140,9 +140,35 @@ def has_list_and_mapping(d):
     return found == {'m', 'l'}
 
 
+def with_sharing(x):
+    """The same document with its first non-empty container referenced from two places (one Python object): PyYAML then
+    writes an anchor and an alias, the other formats simply write the data twice."""
+    found = []
+
+    def rec(d):
+        if found:
+            return
+        if isinstance(d, (list, dict)) and len(d) > 0:
+            found.append(d)
+            return
+        if isinstance(d, dict):
+            for v in d.values():
+                rec(v)
+        elif isinstance(d, list):
+            for v in d:
+                rec(v)
+    rec(x)
+    if not found:
+        return x
+    s_ = found[0]
+    return {'s1': s_, 's2': s_, 'rest': x if x is not s_ else 0}
+
+
 def check(case):
     out = Outcome()
     x, c = case['x'], case['c']
+    if case.get('share'):
+        x, c = with_sharing(x), with_sharing(c)
     if not (in_domain(x) and in_domain(c)):
         out.skipped = 'outside-common-domain'
         return out
